@@ -32,7 +32,7 @@ RULE = ("case = one configuration (differential) or one (configuration, crash po
 ASSUMPTIONS = ["Linux /proc", "the harness puts /venv/bin on PATH so that the plug-in runner script is found", "population methods get an explicit seed option"]
 CASE_TIMEOUT = 240
 SHARD_TIMEOUT = {"quick": 900, "thorough": 7200}
-REQUIRED = {"quick": {"external_runs": 25, "trace_pairs_compared": 8, "kill_runs": 8, "evaluator_exception_runs": 3, "process_table_checked": 25, "messages_counted": 100, "__nontrivial__": 20},
+REQUIRED = {"quick": {"external_runs": 25, "trace_pairs_compared": 8, "kill_runs": 8, "evaluator_exception_runs": 3, "process_table_checked": 25, "messages_counted": 100, "explicit_start_vector_pairs": 3, "__nontrivial__": 20},
             "thorough": {"external_runs": 300, "trace_pairs_compared": 80, "kill_runs": 120, "evaluator_exception_runs": 50, "process_table_checked": 300, "messages_counted": 2000, "__nontrivial__": 250}}
 N = {"quick": {"diff": 18, "kill": 3, "exc": 2}, "thorough": {"diff": 200, "kill": 30, "exc": 20}}
 MAX_ROUNDS_AFTER_DEATH = 6
@@ -164,7 +164,7 @@ class Pipes:
         self._comm.read, self._comm.write = self._orig
 
 
-def run_trace(spec, external, *, raise_at=None, pipes=None):
+def run_trace(spec, external, *, raise_at=None, pipes=None, start=None):
     from ropt.enums import EventType  # noqa: PLC0415
     from ropt.plan import OptimizerContext, Plan  # noqa: PLC0415
 
@@ -198,7 +198,10 @@ def run_trace(spec, external, *, raise_at=None, pipes=None):
     try:
         with warnings.catch_warnings():
             warnings.simplefilter("ignore")
-            out["code"] = int(plan.run_step(step, config=ens.make_config_dict(s)))
+            if start is not None:
+                out["code"] = int(plan.run_step(step, config=ens.make_config_dict(s), variables=np.asarray(start)))
+            else:
+                out["code"] = int(plan.run_step(step, config=ens.make_config_dict(s)))
     except Exception as exc:  # noqa: BLE001
         from vlib.observe import CaseTimeout  # noqa: PLC0415
 
@@ -252,11 +255,18 @@ def run_case(case, obs):
 
             abort_at = int(rng.integers(0, 4))
         mk = (lambda: {abort_at: OptimizationAborted(exit_code=X.USER_ABORT)}) if abort_at is not None else (lambda: None)
-        a = run_trace(spec, False, raise_at=mk())
+        start = None
+        if rng.random() < 0.4:
+            # the step is started from explicitly passed variables (restart from an earlier result)
+            start = np.asarray(spec["x0"]) + rng.uniform(-0.2, 0.2, size=spec["V"])
+            if spec.get("lb") is not None:
+                start = np.clip(start, np.asarray(spec["lb"]) + 1e-6, np.asarray(spec["ub"]) - 1e-6)
+            obs.count("explicit_start_vector_pairs")
+        a = run_trace(spec, False, raise_at=mk(), start=start)
         pipes = Pipes()
         pipes.install()
         try:
-            b = run_trace(spec, True, raise_at=mk())
+            b = run_trace(spec, True, raise_at=mk(), start=start)
         finally:
             pipes.remove()
         obs.count("external_runs")
